@@ -11,6 +11,8 @@ import (
 
 	"go.nanomsg.org/mangos/v3"
 	"go.nanomsg.org/mangos/v3/protocol/pull"
+	"go.nanomsg.org/mangos/v3/protocol/sub"
+	"go.nanomsg.org/mangos/v3/vh/vt"
 	_ "go.nanomsg.org/mangos/v3/transport/tcp"
 	"go.nanomsg.org/mangos/v3/vh/kit"
 	_ "go.nanomsg.org/mangos/v3/vh/vipc"
@@ -23,6 +25,8 @@ func init() {
 		return []*vexplore.Scenario{
 			{Name: "maxrecvsize-takes-effect", Mode: "enum", Reset: kit.ResetGlobals, Body: maxRecv,
 				NeedCounters: []string{"limit-enforced", "in-limit-delivered", "limit-lifted"}},
+			{Name: "sub-readqlen-stays-in-effect", Mode: "enum", Reset: kit.ResetGlobals, Body: subQLen,
+				NeedCounters: []string{"overflowed-to-exactly-qlen", "reconfigured-with-a-full-queue"}},
 		}
 	})
 }
@@ -199,3 +203,119 @@ func maxRecv() {
 }
 
 var _ = fmt.Sprint
+
+
+// subQLen: the receive queue length accepted by a SUB socket / context stays the length of the
+// queue in use whatever happens to the subscriptions afterwards.  The length is set to q (below and
+// above the default of 128), topics "a" and "b" are subscribed, 0 or q matching messages arrive,
+// one reconfiguration follows (nothing, Unsubscribe "b", Subscribe "c", the same length again,
+// Unsubscribe + Subscribe "b"), then q+3 further messages arrive and nobody receives meanwhile:
+// every call returns, GetOption still answers q, and exactly the newest q messages are there.
+func subQLen() {
+	q := []int{1, 2, 4, 200}[kit.ChooseFree(4)]
+	onCtx := kit.ChooseFree(2) == 1
+	pre := []int{0, q}[kit.ChooseFree(2)]
+	op := kit.ChooseFree(5)
+	s, err := sub.NewSocket()
+	if err != nil {
+		kit.Failf("setup", "NewSocket: %v", err)
+	}
+	ep := vt.Get("c19q")
+	if err := s.Listen("vt://c19q"); err != nil {
+		kit.Failf("setup", "Listen: %s", kit.ErrName(err))
+	}
+	p := ep.Connect()
+	kit.Quiesce()
+	set := s.SetOption
+	get := s.GetOption
+	recv := func() ([]byte, error) { return kit.Recv(s) }
+	who := "sub"
+	if onCtx {
+		// the length is set on the socket first: the context inherits it
+		if err := s.SetOption(mangos.OptionReadQLen, q); err != nil {
+			kit.Failf("qlen-refused", "SetOption(ReadQLen,%d): %s", q, kit.ErrName(err))
+		}
+		c, err := s.OpenContext()
+		if err != nil {
+			kit.Failf("setup", "OpenContext: %s", kit.ErrName(err))
+		}
+		set, get = c.SetOption, c.GetOption
+		recv = func() ([]byte, error) { return kit.Recv(c) }
+		who = "sub.ctx"
+	} else if err := set(mangos.OptionReadQLen, q); err != nil {
+		kit.Failf("qlen-refused", "SetOption(ReadQLen,%d): %s", q, kit.ErrName(err))
+	}
+	call := func(what string, f func() error) {
+		c := kit.Start(what, func() (interface{}, error) { return nil, f() })
+		kit.Quiesce()
+		if !c.Done() {
+			kit.Failf("qlen-reconf-hang:"+who+":"+what, "%s with ReadQLen %d and %d message(s) queued: %s did not return", who, q, pre, what)
+		}
+		if c.Err != nil {
+			kit.Failf("qlen-reconf-error:"+who+":"+what, "%s: %s returned %s", who, what, kit.ErrName(c.Err))
+		}
+	}
+	call("Subscribe(a)", func() error { return set(mangos.OptionSubscribe, "a") })
+	call("Subscribe(b)", func() error { return set(mangos.OptionSubscribe, "b") })
+	n := 0
+	feed := func(k int) {
+		for i := 0; i < k; i++ {
+			n++
+			p.Deliver([]byte(fmt.Sprintf("a%04d", n)))
+			kit.Quiesce()
+		}
+	}
+	feed(pre)
+	if pre > 0 {
+		kit.Count("reconfigured-with-a-full-queue")
+	}
+	opName := []string{"nothing", "Unsubscribe(b)", "Subscribe(c)", "SetOption(ReadQLen) again", "Unsubscribe(b)+Subscribe(b)"}[op]
+	switch op {
+	case 1:
+		call("Unsubscribe(b)", func() error { return set(mangos.OptionUnsubscribe, "b") })
+	case 2:
+		call("Subscribe(c)", func() error { return set(mangos.OptionSubscribe, "c") })
+	case 3:
+		call("SetOption(ReadQLen)", func() error { return set(mangos.OptionReadQLen, q) })
+	case 4:
+		call("Unsubscribe(b)", func() error { return set(mangos.OptionUnsubscribe, "b") })
+		call("Subscribe(b)", func() error { return set(mangos.OptionSubscribe, "b") })
+	}
+	if v, err := get(mangos.OptionReadQLen); err != nil || v != q {
+		kit.Failf("get-after-set:"+who+":READQ-LEN", "%s: ReadQLen was set to %d, after %s GetOption answers %v (%s)", who, q, opName, v, kit.ErrName(err))
+	}
+	feed(q + 3)
+	var got []string
+	for {
+		c := kit.Start("Recv", func() (interface{}, error) { b, err := recv(); return string(b), err })
+		kit.Quiesce()
+		if !c.Done() {
+			break
+		}
+		if c.Err != nil {
+			kit.Failf("qlen-recv", "Recv: %s", kit.ErrName(c.Err))
+		}
+		got = append(got, c.Val.(string))
+		if len(got) > n+1 {
+			break
+		}
+	}
+	if len(got) != q {
+		kit.Failf("qlen-not-in-effect:"+who+":"+opName, "%s: ReadQLen %d (GetOption agrees), %d message(s) queued, then %s, then %d more arrived with nobody receiving: %d message(s) were kept (first %q)", who, q, pre, opName, q+3, len(got), first(got))
+	}
+	for i, g := range got {
+		if want := fmt.Sprintf("a%04d", n-q+1+i); g != want {
+			kit.Failf("qlen-wrong-messages:"+who+":"+opName, "%s: message %d of the %d kept is %q, the newest %d are wanted (%q)", who, i, len(got), g, q, want)
+		}
+	}
+	kit.Count("overflowed-to-exactly-qlen")
+	kit.Observe("%s q=%d pre=%d %s", who, q, pre, opName)
+	kit.Must("Close", func() { _ = s.Close() })
+}
+
+func first(l []string) string {
+	if len(l) == 0 {
+		return ""
+	}
+	return l[0]
+}
